@@ -33,11 +33,12 @@ _KF = None
 def known_findings():
     global _KF
     if _KF is None:
-        p = os.path.join(VERIF, "known_findings.json")
         _KF = {}
-        if os.path.exists(p):
-            for f in json.load(open(p)).get("findings", []):
-                _KF[(f["property"], f["class"])] = f
+        d = os.path.join(VERIF, "known_findings")
+        for fn in sorted(os.listdir(d)) if os.path.isdir(d) else []:
+            if fn.endswith(".json"):
+                for f in json.load(open(os.path.join(d, fn))).get("findings", []):
+                    _KF[(f["property"], f["class"])] = f
     return _KF
 
 
